@@ -1437,3 +1437,142 @@ func handlerHappyPath(c *core.Ctx) {
 		}
 	}
 }
+
+// handlerErrorStatusPolarity: packages hap/http and hap/endpoint have no tests of their own — an inverted `if err != nil` in a handler passes
+// the library's suite. In every function there that is handed a ResponseWriter: an error status (WriteHeader with a constant >= 400,
+// http.Error) is never written on a branch that is only taken when a tested error of a call is nil, and where a handler answers a failing
+// call with an error status at all, some error status is written on the failing side.
+func handlerErrorStatusPolarity(c *core.Ctx, prop string) {
+	p := c.P
+	n := 0
+	for _, f := range libFuncs(p) {
+		if f.Pkg == nil || (f.Pkg.Pkg.Path() != mod+"/hap/http" && f.Pkg.Pkg.Path() != mod+"/hap/endpoint") {
+			continue
+		}
+		hasWriter := false
+		for _, pr := range f.Params {
+			if core.TypeIs(pr.Type(), "net/http.ResponseWriter") {
+				hasWriter = true
+			}
+		}
+		for _, fv := range f.FreeVars {
+			if core.TypeIs(fv.Type(), "net/http.ResponseWriter") {
+				hasWriter = true
+			}
+		}
+		if !hasWriter {
+			continue
+		}
+		var signals []ssa.Instruction
+		core.Instrs(f, func(i ssa.Instruction) {
+			if core.IsCall(i, "net/http.Error") {
+				signals = append(signals, i)
+				return
+			}
+			if cc := core.CallOf(i); cc != nil && cc.IsInvoke() && cc.Method.Name() == "WriteHeader" && len(cc.Args) == 1 {
+				if k, ok := core.ConstInt(cc.Args[0]); ok && k >= 400 {
+					signals = append(signals, i)
+				}
+			}
+		})
+		if len(signals) == 0 {
+			continue
+		}
+		for _, b := range f.Blocks {
+			iff, ok := b.Instrs[len(b.Instrs)-1].(*ssa.If)
+			if !ok {
+				continue
+			}
+			bo, ok := iff.Cond.(*ssa.BinOp)
+			if !ok || (bo.Op != token.EQL && bo.Op != token.NEQ) {
+				continue
+			}
+			var ev ssa.Value
+			switch {
+			case core.IsNilConst(bo.Y):
+				ev = bo.X
+			case core.IsNilConst(bo.X):
+				ev = bo.Y
+			default:
+				continue
+			}
+			if ev.Type().String() != "error" {
+				continue
+			}
+			e := ev
+			isE := func(v ssa.Value) bool { return v == e }
+			n++
+			var wrong ssa.Instruction
+			for _, s := range signals {
+				if core.Dominated(s, core.IsNilFact(isE)) && !core.Dominated(s, core.NonNilFact(isE)) {
+					wrong = s
+				}
+			}
+			// a panic that hangs directly on this test ( if err != nil { log.Info.Panic(err) } ) stands on its failing side
+			core.Instrs(f, func(j ssa.Instruction) {
+				if ok, _ := isPanicCall(j); !ok {
+					return
+				}
+				direct := false
+				for _, d := range controlDeps(j.Block()) {
+					if d == iff {
+						direct = true
+					}
+				}
+				if direct && !core.Dominated(j, core.NonNilFact(isE)) {
+					wrong = j
+				}
+			})
+			key := seqKey(c, "error-status-on-failing-side@"+fname(f))
+			if wrong != nil {
+				c.Bad(key, posOf(wrong), "an error status is written on a branch that is taken only when the error tested at %s is nil (the test is the wrong way round): what succeeded is answered with an error, what failed is carried on with", p.Position(bo.Pos()))
+			} else {
+				c.OK(key, posOf(iff), "no error status on the nil side of the error tested here")
+			}
+		}
+	}
+	c.Count("handler_error_tests", n)
+	_ = prop
+	// the per-connection controller of a pairing endpoint is made where the session has none yet, and used where it has one
+	for _, spec := range []struct{ fn, getter, ctor string }{{"(*PairSetup).ServeHTTP", "PairSetupHandler", "NewSetupServerController"}, {"(*PairVerify).ServeHTTP", "PairVerifyHandler", "NewVerifyServerController"}} {
+		f := p.Func("hap/endpoint", spec.fn)
+		if f == nil {
+			continue
+		}
+		var get, mk, use ssa.Instruction
+		core.Instrs(f, func(i ssa.Instruction) {
+			if core.IsInvoke(i, qSession, spec.getter) {
+				get = i
+			}
+			if g := core.Callee(i); g != nil && cn(g) == spec.ctor {
+				mk = i
+			}
+			if cc := core.CallOf(i); cc != nil && cc.IsInvoke() && cc.Method.Name() == "Handle" {
+				use = i
+			}
+		})
+		if get == nil || mk == nil || use == nil {
+			c.Note("controller-made-when-absent@"+fname(f), f.Pos(), "getter, constructor or Handle call not found in the endpoint itself (refactored into helpers: decided by fresh-per-connection)")
+			continue
+		}
+		gv := get.(ssa.Value)
+		isCtl := func(v ssa.Value) bool {
+			if v == gv {
+				return true
+			}
+			// the variable lives in a cell because a function literal further down reads it
+			if u, ok := v.(*ssa.UnOp); ok && u.Op == token.MUL {
+				if al, ok := u.X.(*ssa.Alloc); ok {
+					for _, r := range *al.Referrers() {
+						if st, ok := r.(*ssa.Store); ok && st.Addr == ssa.Value(al) && st.Val == gv {
+							return true
+						}
+					}
+				}
+			}
+			return false
+		}
+		c.Check(core.Dominated(mk, core.IsNilFact(isCtl)) && !core.Dominated(use, core.IsNilFact(isCtl)), "controller-made-when-absent@"+fname(f), posOf(mk), "made where the session has no controller yet; Handle is reached where it has one",
+			"the controller of the connection is not made on the branch where the session has none (test inverted): the first request of a connection calls Handle on nil — every pairing attempt panics — and a connection that has one gets a new one for every request (the exchange never gets past its first step)")
+	}
+}
